@@ -73,7 +73,10 @@ fn roundtrip(s: &str, via_runtime: bool) -> Result<Info, (String, String)> {
         return Err(("literal-or-remark-changed".into(), format!("{:?}: literals/remarks {:?}, after listing {:?}: {:?}", s, lit0, t1, lit1)));
     }
     // SAVE/LOAD path and the runtime's own LIST
-    if num0.is_some() && !tok0.is_empty() && s.len() <= 1024 && t1.len() <= 1024 {
+    // A line is "entered" when the file loader accepts its source text; then its listing must
+    // load as well (the loader is the entry path that needs no terminal).
+    let entered = num0.is_some() && !tok0.is_empty() && guarded(|| Listing::default().load_str(s).is_ok()).unwrap_or(false);
+    if entered {
         let r = guarded(|| {
             let mut l = Listing::default();
             let res = l.load_str(&t1).map_err(|e| e.to_string());
@@ -84,7 +87,9 @@ fn roundtrip(s: &str, via_runtime: bool) -> Result<Info, (String, String)> {
         });
         match r {
             Err(m) => return Err(("panic".into(), m)),
-            Ok((Err(e), _, _, _)) => return Err(("saved-line-does-not-load".into(), format!("{:?}: load_str({:?}) fails: {}", s, t1, e))),
+            // (a rejected line only has to stay rejected: a refusal by the loader counts as that)
+            Ok((Err(_), _, _, _)) if m0.is_err() => {}
+            Ok((Err(e), _, _, _)) => return Err(("saved-line-does-not-load".into(), format!("{:?} ({} bytes) is accepted; its listing {:?} ({} bytes) is refused by the loader: {}", s, s.len(), t1, t1.len(), e))),
             Ok((Ok(()), texts, meanings, numbers)) => {
                 if numbers != vec![num0] {
                     return Err(("save-load-changed-number".into(), format!("{:?}: saved as {:?}, loaded lines have numbers {:?}", s, t1, numbers)));
@@ -106,6 +111,17 @@ fn roundtrip(s: &str, via_runtime: bool) -> Result<Info, (String, String)> {
             let listed: Vec<String> = term.take().into_iter().filter_map(|e| if let Ev::List(t, _) = e { Some(t) } else { None }).collect();
             if m0.is_ok() && listed != vec![t1.clone()] {
                 return Err(("runtime-list-differs".into(), format!("{:?}: LIST shows {:?}, Line::to_string gives {:?}", s, listed, t1)));
+            }
+            // TAB edit: the listed text typed again stores the same line
+            if !listed.is_empty() && m0.is_ok() {
+                let mut term2 = Term::new();
+                term2.line(&listed[0], &mut o);
+                term2.take();
+                term2.line("LIST", &mut o);
+                let again: Vec<String> = term2.take().into_iter().filter_map(|e| if let Ev::List(t, _) = e { Some(t) } else { None }).collect();
+                if again != listed {
+                    return Err(("listed-text-does-not-re-enter".into(), format!("{:?} is stored and listed as {:?} ({} bytes); typing that text again gives the listing {:?}", s, listed, listed[0].len(), again)));
+                }
             }
         }
     }
@@ -239,6 +255,17 @@ fn check_random(t: &mut Tape, ctx: &Ctx) -> Outcome {
 /// A canonical line whose text is within a few bytes of the 1024-byte line limit (both sides).
 fn limit_line(t: &mut Tape) -> String {
     let target = (1024 + t.range(-3, 2)) as usize;
+    if t.chance(1, 3) {
+        // compact spelling: the listing is longer than what was typed
+        let unit = *t.pick(&["IFA<2THEN10:", "A=1:", "FORI=1TO2:NEXTI:", "?A;B:", "GOTO10:"]);
+        let total = (1024 - t.below(300)) as usize;
+        let mut s = String::from("10 ");
+        while s.len() + unit.len() + 3 <= total {
+            s.push_str(unit);
+        }
+        s.push_str("A=1");
+        return s;
+    }
     let (head, tail) = match t.below(4) {
         0 => ("10 REM ", ""),
         1 => ("10 PRINT \"", "\""),
